@@ -194,6 +194,8 @@ func fnCoqType(k string) string {
 	switch {
 	case k == "hstate":
 		return "hstate"
+	case k == "fslog":
+		return "fslog"
 	case k == "errc":
 		return "err"
 	case k == "vmapn":
@@ -329,6 +331,7 @@ type fnTr struct {
 	cursor       bool          // cursor mode (cursorFuncs): see cursor.go
 	handler      bool          // handler mode (handlerFuncs): see handlers.go
 	hst          *lvar         // handler mode: the handlers' state, threaded through every handler call
+	fs           *lvar         // handler mode: the files created and written by this function (os.Create), a hidden state
 	wb           bool          // write-back mode (inout.go, wb.go): in-place updates of a value tree
 	nextRebuild  *rebuildSpec  // consumed by the next loop(): the collection it ranges over is rebuilt
 	wbAfterCall  []*lvar       // set by selfArgs: the locals that received the in-out results of the recursive call
@@ -2852,6 +2855,11 @@ func (t *fnTr) stmts(list []ast.Stmt, end func() string) string {
 			if fl := t.lvarOf(se.X); fl != nil && fl.kind == "reader" && !fl.isState {
 				return next()
 			}
+			if fid, isId := unparen(se.X).(*ast.Ident); isId {
+				if fl := t.locals[t.p.info.Uses[fid]]; fl != nil && fl.kind == "fwriter" {
+					return next()
+				}
+			}
 		}
 		t.unsupported(s, "defer")
 	case *ast.DeclStmt:
@@ -2954,6 +2962,17 @@ func (t *fnTr) stmts(list []ast.Stmt, end func() string) string {
 	case *ast.ExprStmt:
 		c, ok := x.X.(*ast.CallExpr)
 		if ok {
+			if se, isSel := c.Fun.(*ast.SelectorExpr); isSel && len(c.Args) == 1 && t.fs != nil {
+				if fid, isId := unparen(se.X).(*ast.Ident); isId {
+					if fl := t.locals[t.p.info.Uses[fid]]; fl != nil && fl.kind == "fwriter" && (se.Sel.Name == "WriteString" || se.Sel.Name == "Write") {
+						// fh.WriteString(s) on a file this function created: appended to its entry (the count and the error are ignored
+						// by the Go code as well)
+						mark := len(t.guards)
+						pv := t.expr(c.Args[0])
+						return t.wrap(mark, "let "+t.fs.name+" := fs_append "+t.fs.name+" "+fl.fields["ix"].name+" "+pv+" in\n  "+next())
+					}
+				}
+			}
 			if se, isSel := c.Fun.(*ast.SelectorExpr); isSel && len(c.Args) == 1 {
 				if wl := t.lvarOf(se.X); wl != nil && wl.kind == "writer" {
 					// w.WriteString(s) / w.Write(b) / w.WriteByte(c) for its effect: the bytes are appended
@@ -3325,6 +3344,36 @@ func (t *fnTr) assign(x *ast.AssignStmt, next func() string) string {
 		}
 		// fi, err := os.Stat(name) / fh, err := os.Open(name): the file system is the environment (ext_os_Stat: is it a regular
 		// file; ext_os_Open: the schedule of Read results the file delivers)
+		if c, isCall := x.Rhs[0].(*ast.CallExpr); isCall && t.handler && len(c.Args) == 1 && t.fs != nil {
+			if pk, nm, isPkg := t.pkgCall(c); isPkg && pk == "os" && nm == "Create" && define {
+				// fh, err := os.Create(name): ext_os_Create says whether the file can be created; it is then a new, empty entry of the
+				// log of files this function writes, and fh is its position
+				mark := len(t.guards)
+				arg := t.expr(c.Args[0])
+				found := false
+				for _, e := range *t.externs {
+					found = found || e.name == "ext_os_Create"
+				}
+				if !found {
+					*t.externs = append(*t.externs, extern{"ext_os_Create", "str -> (res unit)"})
+				}
+				aobj := t.p.info.Defs[a]
+				if aobj == nil {
+					t.unsupported(x, "os.Create result assigned to an existing variable")
+				}
+				lv := &lvar{name: "l_" + a.Name, kind: "fwriter", fields: map[string]*lvar{}}
+				t.locals[aobj] = lv
+				ix := t.newLocal(nil, a.Name+"_ix", "nat")
+				lv.fields["ix"] = ix
+				lv.forder = []string{"ix"}
+				vb := bind(b, "errv")
+				t.fresh++
+				rr := fmt.Sprintf("rr%d", t.fresh)
+				t.guards = append(t.guards, "match (ext_os_Create "+arg+") with Panic => Crash | "+rr+" =>")
+				fsn := t.fs.name
+				return t.wrap(mark, "let '("+ix.name+", "+fsn+", "+vb+") := match "+rr+" with Ok _ => (length "+fsn+", app "+fsn+" [("+arg+", ([] : str))], None) | Err e => (O, "+fsn+", Some e) | Panic => (O, "+fsn+", None) end in\n  "+next())
+			}
+		}
 		if c, isCall := x.Rhs[0].(*ast.CallExpr); isCall && t.handler && len(c.Args) == 1 {
 			if pk, nm, isPkg := t.pkgCall(c); isPkg && pk == "os" && (nm == "Stat" || nm == "Open") && define {
 				mark := len(t.guards)
@@ -5410,7 +5459,7 @@ func constTable(p *pkgInfo, vs *ast.ValueSpec, i int) (string, bool) {
 
 // the functions translated into Pure_gen.v ("Recv.Method" for methods)
 var pureFuncs = []string{"cast", "escapeChars", "parsePath", "getSubKeyMap", "hasSubKeys", "Map.PathForKeyShortest", "valuesForKeyPath", "hasKey", "hasKeyPath", "getLeafNodes",
-	"Map.ValuesForKey", "Map.oldValuesForPath", "Map.ValuesForPath", "Map.LeafNodes", "getJson", "NewMapJsonReader", "NewMapJsonReaderRaw", "Map.Exists", "Map.ValueForPath", "Map.ValueForKey", "Map.LeafPaths", "Map.LeafValues", "valuesForArray", "Map.PathsForKey", "byteReader.ReadByte", "teeReader.ReadByte", "Maps.JsonString", "Maps.JsonStringIndent", "Maps.XmlString", "Maps.XmlStringIndent", "BeautifyXml", "Map.Copy", "Map.Json", "Map.Root", "NewMapXml", "NewMapXmlSeq", "lastKey", "xmlToMapParser", "xmlSeqToMapParser", "Map.JsonWriter", "Map.JsonWriterRaw", "Map.JsonIndentWriter", "Map.JsonIndentWriterRaw", "Map.XmlWriter", "Map.XmlIndentWriter", "MapSeq.XmlWriter", "MapSeq.XmlIndentWriter", "mapToXmlSeqIndent", "pretty.Indent", "pretty.Outdent", "elemListSeq.Less", "marshalMapToXmlIndent", "attrList.Less", "elemList.Less", "NewMapJson", "updateValueForKey", "updateValue", "updateValuesForKeyPath", "Map.UpdateValuesForPath", "prevValueByPath", "remove", "renameKey", "Map.Remove", "Map.RenameKey", "parentPath", "Map.SetValueForPath", "Map.Xml", "Map.XmlIndent", "MapSeq.Xml", "MapSeq.XmlIndent", "AnyXml", "AnyXmlIndent", "marshalJSON", "Map.JsonIndent", "Map.NewMap", "addNewVal", "copyMapShallow", "NewMapGob", "Map.Gob", "HandleXmlReader", "HandleXmlReaderRaw", "HandleJsonReader", "HandleJsonReaderRaw", "NewMapsFromJsonFile", "NewMapsFromXmlFile", "NewMapsFromJsonFileRaw", "NewMapsFromXmlFileRaw"}
+	"Map.ValuesForKey", "Map.oldValuesForPath", "Map.ValuesForPath", "Map.LeafNodes", "getJson", "NewMapJsonReader", "NewMapJsonReaderRaw", "Map.Exists", "Map.ValueForPath", "Map.ValueForKey", "Map.LeafPaths", "Map.LeafValues", "valuesForArray", "Map.PathsForKey", "byteReader.ReadByte", "teeReader.ReadByte", "Maps.JsonString", "Maps.JsonStringIndent", "Maps.XmlString", "Maps.XmlStringIndent", "BeautifyXml", "Map.Copy", "Map.Json", "Map.Root", "NewMapXml", "NewMapXmlSeq", "lastKey", "xmlToMapParser", "xmlSeqToMapParser", "Map.JsonWriter", "Map.JsonWriterRaw", "Map.JsonIndentWriter", "Map.JsonIndentWriterRaw", "Map.XmlWriter", "Map.XmlIndentWriter", "MapSeq.XmlWriter", "MapSeq.XmlIndentWriter", "mapToXmlSeqIndent", "pretty.Indent", "pretty.Outdent", "elemListSeq.Less", "marshalMapToXmlIndent", "attrList.Less", "elemList.Less", "NewMapJson", "updateValueForKey", "updateValue", "updateValuesForKeyPath", "Map.UpdateValuesForPath", "prevValueByPath", "remove", "renameKey", "Map.Remove", "Map.RenameKey", "parentPath", "Map.SetValueForPath", "Map.Xml", "Map.XmlIndent", "MapSeq.Xml", "MapSeq.XmlIndent", "AnyXml", "AnyXmlIndent", "marshalJSON", "Map.JsonIndent", "Map.NewMap", "addNewVal", "copyMapShallow", "NewMapGob", "Map.Gob", "HandleXmlReader", "HandleXmlReaderRaw", "HandleJsonReader", "HandleJsonReaderRaw", "NewMapsFromJsonFile", "NewMapsFromXmlFile", "NewMapsFromJsonFileRaw", "NewMapsFromXmlFileRaw", "Maps.JsonFile", "Maps.JsonFileIndent", "Maps.XmlFile", "Maps.XmlFileIndent"}
 
 // joinMode: functions translated in join mode (see branching): the statements after an if / switch are translated
 // once instead of into every branch.  The continuation-passing translation of the other functions is kept as it is
@@ -5683,6 +5732,23 @@ func genPure(p *pkgInfo) string {
 			if t.hst != nil {
 				params += " (p_hst : hstate)"
 				t.state = append(t.state, t.hst)
+			}
+			if t.handler {
+				creates := false
+				ast.Inspect(fn.Body, func(n ast.Node) bool {
+					if c, ok := n.(*ast.CallExpr); ok {
+						if pk, nm, isPkg := t.pkgCall(c); isPkg && pk == "os" && nm == "Create" {
+							creates = true
+						}
+					}
+					return true
+				})
+				if creates {
+					t.fs = &lvar{name: "p_fs", kind: "fslog", isState: true}
+					t.used["p_fs"] = 1
+					params += " (p_fs : fslog)"
+					t.state = append(t.state, t.fs)
+				}
 			}
 			if fn.Type.Results == nil {
 				if len(t.state) == 0 {
